@@ -2445,6 +2445,11 @@ def gen_C19(tier, rng):
         if len(sub) > n:
             sub = rng.sample(sub, n)
         for c in sub:
+            # programs whose inputs are outside the binary32 range (the extreme-value stream of C07) are
+            # in-domain only for the double-precision build
+            if any(abs(v) > 1e30 or (v != 0 and abs(v) < 1e-30) for x in c["instrs"] if x[0] == "leaf" for v in x[3]) \
+                    or c.get("cls") == "extreme_values":
+                continue
             c["cls"] = "%s:%s" % (pid, c.get("cls", ""))
             cases.append(round_case_f32(c))
     return cases
